@@ -6,6 +6,7 @@ import (
 	"encoding/binary"
 	"errors"
 	"io"
+	"math"
 	"slices"
 )
 
@@ -80,6 +81,12 @@ type Field struct {
 }
 
 func NewField(fieldType [2]byte, data []byte) Field {
+	// A field's size is a 16 bit integer.  Longer data is cut: sent whole, its size would not match it and the
+	// receiver could no longer parse the transaction, nor anything sent after it.
+	if len(data) > math.MaxUint16 {
+		data = data[:math.MaxUint16]
+	}
+
 	f := Field{
 		Type: fieldType,
 		Data: make([]byte, len(data)),
